@@ -25,6 +25,9 @@ type C07Case struct {
 	IdB int `json:"id_b"`
 	// Thr: the compatibility threshold carried by the same options object; the distance is not a function of it
 	Thr float64 `json:"compat_threshold"`
+	// DisA / DisB: positions of disabled genes in a and b (the distance counts genes by innovation number, enabled or not)
+	DisA []int `json:"disabled_a,omitempty"`
+	DisB []int `json:"disabled_b,omitempty"`
 }
 
 func genMutNum() *rapid.Generator[float64] {
@@ -128,6 +131,18 @@ func GenC07() *rapid.Generator[C07Case] {
 			c.A, c.B = c.B, c.A
 		}
 		c.IdA, c.IdB = rapid.IntRange(0, 3).Draw(t, "id a"), rapid.IntRange(0, 3).Draw(t, "id b")
+		if rapid.Bool().Draw(t, "disabled genes") {
+			for i := range c.A {
+				if rapid.IntRange(0, 2).Draw(t, "disabled a") == 0 {
+					c.DisA = append(c.DisA, i)
+				}
+			}
+			for i := range c.B {
+				if rapid.IntRange(0, 2).Draw(t, "disabled b") == 0 {
+					c.DisB = append(c.DisB, i)
+				}
+			}
+		}
 		c.Thr = rapid.OneOf(rapid.Just(0.0), rapid.Float64Range(0.01, 5), rapid.Float64Range(1, 100)).Draw(t, "threshold")
 		return c
 	})
@@ -160,6 +175,25 @@ func checkDistance(name string, got, ref float64) error {
 
 func CheckC07(c C07Case, rec *Rec) error {
 	a, b := compatGenome(c.IdA, c.A), compatGenome(c.IdB, c.B)
+	bothDisabled := map[int64]int{}
+	for _, i := range c.DisA {
+		if i < len(a.Genes) {
+			a.Genes[i].IsEnabled = false
+			bothDisabled[a.Genes[i].InnovationNum]++
+		}
+	}
+	for _, i := range c.DisB {
+		if i < len(b.Genes) {
+			b.Genes[i].IsEnabled = false
+			bothDisabled[b.Genes[i].InnovationNum]++
+		}
+	}
+	for _, k := range bothDisabled {
+		if k == 2 {
+			rec.Class("matching gene disabled in both genomes")
+			break
+		}
+	}
 	if c.IdA == c.IdB {
 		rec.Class("both genomes carry the same id")
 	}
